@@ -313,6 +313,20 @@ def oracle(ctx, kind, p):
         ok, eq = ctx.call(lambda: g == h, clause='__eq__')
         if ok and bool(eq) != want:
             ctx.fail('__eq__', detail=dict(det, other=tr2, other_top=top2, got=eq, want=want))
+        if p['i'] % 20 == 0:
+            before = snap(g)
+            for other in (5, None, 'x', [('a', ':R', 'b')]):
+                for opn, f in (('|', lambda: g | other), ('-', lambda: g - other)):
+                    try:
+                        f()
+                        ctx.fail(f'{opn}:non-graph-operand-accepted', detail=dict(det, other=repr(other)))
+                    except TypeError:
+                        pass
+                    except Exception as e:
+                        ctx.fail(f'{opn}:non-graph-operand:{type(e).__name__}', detail=dict(det, other=repr(other)))
+            if snap(g) != before:
+                ctx.fail('operand-mutated-by-rejected-operation', detail=det)
+            ctx.count('non_graph_operands')
         ctx.case((tr, top), len(tr) >= 2)
         if ctx.want_sample() and len(tr) >= 4:
             ctx.sample({'triples': tr, 'top': top, 'variables': sorted(m.variables(), key=repr),
